@@ -123,6 +123,8 @@ class Histories(Suite):
                 return ("returned-not-first-response", f"returned {o.get('p')!r}; first matching message is {ev}", {"p": ev.get("p")})
         if o["outcome"] == "exception":
             return ("unexpected-exception", f"{o.get('exc')}: {o.get('text')}", None)
+        if o["outcome"] == "hung":
+            return ("never-completes", f"the call neither returned nor failed: still running {o['t']} ticks after its start, timeout {case['D']}", {"outcome": "timeout"})
         if not cancelled_possible:
             if fm is None and o["outcome"] != "timeout":
                 return ("no-timeout", f"outcome {o['outcome']} without any matching response", {"outcome": "timeout"})
